@@ -1483,6 +1483,7 @@ fn main() {
     rep.must("e2e/secure", 10_000);
     rep.must("e2e/secure_denials", 10_000);
     rep.must("e2e/chains_compared", 100);
+    rep.must("e2e/apex_only_zones", 4);
     let _ = thorough;
 
     let apex = refzone::default_apex();
@@ -1511,7 +1512,15 @@ fn main() {
         let mut run = E2eRunner { rep: &mut rep, rt, reported: Default::default() };
         let n = ctx.budget(320, 18_000);
         for i in 0..n {
-            let z = if i % 3 == 0 { gen_small_zone(&mut rng) } else { refzone::gen_zone(&mut rng, &refzone::GenCfg::default()) };
+            let mut z = if i % 3 == 0 { gen_small_zone(&mut rng) } else { refzone::gen_zone(&mut rng, &refzone::GenCfg::default()) };
+            if i % 40 == 7 {
+                // a zone that consists of its apex only: the NSEC chain is one record pointing to itself
+                let others: Vec<Name> = z.owners().filter(|o| **o != z.apex).cloned().collect();
+                for o in others {
+                    z.remove_name(&o);
+                }
+                run.rep.count("e2e/apex_only_zones");
+            }
             run.zone(&z, &qnames);
         }
     }
